@@ -70,6 +70,11 @@ static JsonValue *build(const vector<string> &t, size_t *pos) {
     case 't': return new JsonBool(true);
     case 'f': return new JsonBool(false);
     case 'n': return new JsonNull();
+    case 'D': {                            // whatever JsonParser makes of this (number) text
+      string err;
+      JsonValue *v = JsonParser::Parse(S(r), &err);
+      return v ? v : new JsonNull();
+    }
     case 'a': {
       JsonArray *a = new JsonArray();
       unsigned n = vh::num(r);
@@ -200,6 +205,18 @@ static string handle(const string &p) {
       if (close) for (unsigned i = n; i > 0; i--) t += ((i - 1) & 1) ? "}" : "]";
     }
     return parse_result(t, false);
+  }
+  if (op == "cmp") {                       // operator== / != / < / <= / > / >= between two values
+    std::auto_ptr<JsonValue> x(build_s(a[1])), y(build_s(a[2]));
+    string o = string("eq=") + (*x == *y ? "1" : "0") + ";qe=" + (*y == *x ? "1" : "0") +
+               ";ne=" + (*x != *y ? "1" : "0");
+    const JsonNumber *nx = dynamic_cast<const JsonNumber*>(x.get());
+    const JsonNumber *ny = dynamic_cast<const JsonNumber*>(y.get());
+    if (nx && ny && !dynamic_cast<const JsonDouble*>(nx) && !dynamic_cast<const JsonDouble*>(ny)) {
+      o += string(";lt=") + (*nx < *ny ? "1" : "0") + ";le=" + (*nx <= *ny ? "1" : "0") +
+           ";gt=" + (*nx > *ny ? "1" : "0") + ";ge=" + (*nx >= *ny ? "1" : "0");
+    }
+    return o;
   }
   if (op == "len") return parse_result(sized_doc(a[1], vh::num(a[2])), false);
   if (op == "seq") {                       // ONE JsonParser object for a whole sequence of texts
